@@ -66,20 +66,59 @@ def alphabet(tier):
     return ev
 
 
+def s_scenarios():
+    """QUIT (which expunges the marked messages outside the mailbox's command queue) racing IMAP commands."""
+    pre = [{"s": "A", "op": "select", "m": "INBOX"}, {"s": "P", "op": "pop_open"}, {"s": "P", "op": "pop_dele", "n": 1}]
+    out = []
+    for name, acmds in [
+        ("quit|expunge", [{"op": "store", "set": "3", "mode": "+", "flags": "\\Deleted"}, {"op": "expunge"}]),
+        ("quit|fetch", [{"op": "fetch", "set": "1:*", "items": "(UID BODY.PEEK[HEADER.FIELDS (SUBJECT)])", "uid": True}]),
+        ("quit|move", [{"op": "move", "set": "2", "dst": "other"}]),
+        ("quit|append", [{"op": "append", "m": "INBOX", "cid": "qa1"}]),
+    ]:
+        out.append({"name": name, "cfg_ref": ["vf.props.c20", "cfg", [3]], "prelude": pre, "loopopts": {"preempt_timers": False},
+                    "concurrent": {"A": [dict(c, s="A") for c in acmds],
+                                   "P": [{"s": "P", "op": "pop", "line": "QUIT", "marked_uids": [1]}]}})
+    return out
+
+
 def run(tier, seed, jobs):
     from .hcommon import run_h
 
-    return run_h(PROP, RULES, [{"cfg_ref": ("vf.props.c20", "cfg", [3]), "alphabet": alphabet(tier), "depth": 3 if tier == "quick" else 4,
+    res = run_h(PROP, RULES, [{"cfg_ref": ("vf.props.c20", "cfg", [3]), "alphabet": alphabet(tier), "depth": 4 if tier == "quick" else 6,
                                 "label": "INBOX(3) dotted bodies"}],
                  ("C20", "C05"), jobs, seed,
                  ["one POP3 session and one IMAP session on INBOX(3); bodies with dot lines, a lone dot, no final newline",
                   "'octets RETR delivers' = un-stuffed payload between the status line and the terminating '.CRLF' line",
                   "a RETR of a message an IMAP session has expunged meanwhile may answer -ERR but may never deliver another message",
-                  "commands strictly sequential; QUIT racing an IMAP EXPUNGE is a schedule scenario of the S engine"],
-                 time_budget=85 if tier == "quick" else 1500)
+                  "commands strictly sequential in the H part; the S part races QUIT (with one marked message) against EXPUNGE / UID FETCH / MOVE / APPEND "
+                  "with <=2 (thorough 3) schedule deviations"],
+                 time_budget=60 if tier == "quick" else 1500)
+    from ..explore import sched
+
+    per = []
+    for sc in s_scenarios():
+        r = sched.explore(sc, 2 if tier == "quick" else 3, jobs, seed, max_exec=30000 if tier == "quick" else 400000)
+        for f in r["failures"]:
+            f.rule = f.rule.replace("C10.", "C20.")
+        res.failures.extend(r["failures"])
+        res.coverage["states"] += r["executions"]
+        res.coverage["transitions"] += r["steps"]
+        res.coverage["traces_validated_against_impl"] += r["executions"]
+        per.append({"scenario": sc["name"], "executions": r["executions"], "bound": r["bound_completed"], "outcomes": r["distinct_outcomes"], "cap": r["cap"]})
+    res.coverage["schedule_part"] = per
+    return res
 
 
 def replay(rec):
+    rp = rec["replay"]
+    if rp.get("driver") == "s":
+        from ..explore import sched
+
+        _p, _n, _sig, fails, _st = sched.run_one((rp["scenario"], rp["choices"]))
+        for f in fails:
+            f.rule = f.rule.replace("C10.", "C20.")
+        return fails
     from .hcommon import replay_h
 
     return replay_h("C", rec)
